@@ -259,6 +259,9 @@ def rule_F2(ctx, prog, label, rule='F2'):
 SWAPPERS = {'mzd_row_swap', '_mzd_row_swap', 'mzd_col_swap_in_rows', 'mzd_col_swap'}
 
 
+_PROG = [None]
+
+
 def perm_loops(f):
     """loops of f whose body applies one swap per iteration taken from a permutation: returns
     [(loop, direction, lo Lin, hi-exclusive Lin, swap node)]"""
@@ -289,6 +292,28 @@ def perm_loops(f):
             asg = [n for n in body.walk() if n.kind == 'BinaryOperator' and n.op == '=' and any(x.kind == 'MemberExpr' and x.name == 'values' for x in n.walk())]
             if len(asg) >= 2:
                 sw = asg[0]
+        helper_idx = None
+        if sw is None and _PROG[0] is not None:
+            # the swap extracted into a static helper  swap(permutation, P->values, idx): the index argument is the entry applied
+            for c in body.find('CallExpr'):
+                hn = callee_name(c)
+                h = _PROG[0].resolve(hn, f) if hn else None
+                if h is None or h.body is None or hn in SWAPPERS:
+                    continue
+                vals_arg = [i for i, a in enumerate(c.kids[1:]) if any(x.kind == 'MemberExpr' and x.name == 'values' for x in a.walk())]
+                if not vals_arg or vals_arg[0] >= len(h.params):
+                    continue
+                vp = h.params[vals_arg[0]]
+                idxp = None
+                for x in h.body.walk():
+                    if x.kind == 'ArraySubscriptExpr' and strip(x.kids[0], casts=True).kind == 'DeclRefExpr' and strip(x.kids[0], casts=True).refid == vp.id:
+                        ix = strip(x.kids[1], casts=True)
+                        if ix.kind == 'DeclRefExpr' and ix.refkind == 'ParmVarDecl':
+                            idxp = [i for i, p_ in enumerate(h.params) if p_.id == ix.refid]
+                nasg = sum(1 for x in h.body.walk() if x.kind == 'BinaryOperator' and x.op == '=')
+                if idxp and nasg >= 2 and idxp[0] + 1 < len(c.kids):
+                    sw = c
+                    helper_idx = c.kids[1 + idxp[0]]
         if sw is None:
             continue
         # innermost loop only
@@ -301,7 +326,10 @@ def perm_loops(f):
         vid, lo, hi, step = iv
         # effective direction = loop direction x sign of the loop variable in the index of P->values[...]
         idx_exprs = []
-        for x in sw_extra + list(sw.walk()) + ([] if sw.kind == 'CallExpr' else [y for a_ in body.walk() if a_.kind == 'BinaryOperator' and a_.op == '=' for y in a_.walk()]):
+        if helper_idx is not None:
+            e = strip(helper_idx, casts=True)
+            idx_exprs = [e.kids[1], e.kids[2]] if e.kind == 'ConditionalOperator' else [e]
+        for x in ([] if helper_idx is not None else sw_extra + list(sw.walk()) + ([] if sw.kind == 'CallExpr' else [y for a_ in body.walk() if a_.kind == 'BinaryOperator' and a_.op == '=' for y in a_.walk()])):
             if x.kind == 'ArraySubscriptExpr':
                 b = strip(x.kids[0], casts=True)
                 if b.kind == 'MemberExpr' and b.name == 'values':
@@ -336,6 +364,7 @@ def rule_F4(ctx, prog, label, rule='F4'):
     T = table()['perm_loops']
     for name, want in sorted(T.items()):
         f = prog.func(name)
+        _PROG[0] = prog
         loops = perm_loops(f)
         specs = want if isinstance(want, list) else [want]
         if not loops:
